@@ -560,6 +560,13 @@ def run(ck):
     # frame_buf) is served as if it were the request (R16.6, shared with C16)
     from . import c16
     c16.dispatch(ck, agg, c16.master(ck))
+    # "... forward garbage / bounded time": send() discards a payload the node gave up on (R02.4, shared with C02), and only the origin's
+    # routed write waits for a NETWORK_ACK - a relay never blocks in update() (R13.3, shared with C13)
+    from . import link, c13
+    link.send_prologue(Radio(ck), agg)
+    nn13 = net.NetNode(ck, "rf24_network", "RF24Network")
+    nn13.merge_funcs = set()
+    c13.write_rules(ck, agg, nn13)
     agg.flush()
     ck.floor("R15.8", "re-transmission scenarios by message length", n5, 30)
     ck.floor("R15.1", "update() analyses", n1, 12)
